@@ -66,7 +66,9 @@ inline enc::O5mEncoder::Hostile gen_hostile_o5m(Src& s, size_t n_objects) {
     static const uint64_t refs[] = {1, 2, 3, 100, 14999, 15000, 15001, 15002, 65536, 1ULL << 32, ~0ULL};
     // one thing, or two things together (a wrong reference section length and a body that ends early need each other to reach
     // the code behind the first check)
-    const unsigned what = static_cast<unsigned>(s.weighted({4, 3, 2, 2, 4, 2}));
+    const unsigned what = static_cast<unsigned>(s.weighted({4, 3, 2, 2, 4, 2, 2}));
+    h.bad_box = what == 6;
+    h.box_pick = s.draw(1ULL << 16);
     h.alter_reflen = what == 0 || what == 4 || what == 5;
     h.cut_body = what == 1 || what == 4;
     h.alter_length = what == 2 || what == 5;
